@@ -49,8 +49,8 @@ def check_hforms(ctx: Ctx, c: Dict[str, Any]) -> None:
     if not many:
         exp = exp[:1]
 
-    def bad(op, what, **kw):
-        ctx.violation(dict(op=op, **sig0, **kw), f"{op}({sig0['fa']}[{sig0['ba']}], {sig0['fb']}[{sig0['bb']}]) D={D}: {what}", c)
+    def bad(op, msg, **kw):
+        ctx.violation(dict(op=op, **sig0, **kw), f"{op}({sig0['fa']}[{sig0['ba']}], {sig0['fb']}[{sig0['bb']}]) D={D}: {msg}", c)
 
     try:
         cc = homogeneous_matmul(a, b)
@@ -274,7 +274,7 @@ def run(ctx: Ctx) -> None:
     for c in hcases:
         check_hforms(ctx, c)
     ctx.sample({k: hcases[len(hcases) // 2][k] for k in ("a", "b", "form", "batch", "prod")})
-    rc = ("SPECIFICATION Spec\nCONSTANTS\n  Angles <- %s\n  Orders <- %s\n  EmitCases = %s\n%sCONSTRAINT Emit\n")
+    rc = ("SPECIFICATION Spec\nCONSTANTS\n  Angles <- %s\n  HalfAngles <- QHalfAngles\n  Orders <- %s\n  EmitCases = %s\n%sCONSTRAINT Emit\n")
     ang = "QAngles" if tier == "quick" else "TAngles"
     orders = "OrdersProper" if tier == "quick" else "OrdersAll"
     ctx.tlc("MC_Rotations", rc % (ang, orders, "FALSE", "INVARIANT Laws\n"), label="rot-laws", timeout=3000)
